@@ -80,11 +80,18 @@ func DigestXapTar(r io.Reader, hash crypto.Hash, doPageHash bool) (*XapDigest, e
 
 func removeSignature(cd []byte) []byte {
 	size := len(cd)
+	if size < 10 {
+		return cd
+	}
 	var tr xapTrailer
 	_ = binary.Read(bytes.NewReader(cd[size-10:size]), binary.LittleEndian, &tr)
 	if tr.Magic == trailerMagic {
-		size -= int(tr.TrailerSize) + 10
-		return cd[:size]
+		sigSize := int64(tr.TrailerSize) + 10
+		if sigSize > int64(size) {
+			// trailer claims more than there is: not a signature we wrote
+			return cd
+		}
+		return cd[:size-int(sigSize)]
 	}
 	return cd
 }
